@@ -134,6 +134,24 @@ def check_summary(dassh, r, d, track=None, units=None, truth=None):
             want_pk, want_ht = (track['duct'][i][slot] if track
                                 else a._peak['duct'][slot])
             want_pk, want_ht = cT(want_pk), cL(want_ht)
+            # the six face averages of this wall at the outlet plane: the
+            # cells of the face plus the corner that closes the face before
+            # it (for six-cell walls: the two corners bounding the face)
+            fld = np.asarray(a.region[-1].temp['duct_mw'][d_], dtype=float)
+            nps = len(fld) // 6
+            faces = []
+            for f_ in range(6):
+                own = [fld[f_ * nps + j] for j in range(nps)]
+                prev = fld[((f_ - 1) % 6) * nps + nps - 1]
+                faces.append(cT(float(np.mean(own + [prev]))))
+            got_faces = nums[-8:-2]
+            if len(got_faces) != 6 or any(
+                    abs(g - w) > tol for g, w in zip(got_faces, faces)):
+                ok = False
+                LAST_MISMATCH.append(
+                    f'duct table asm {i + 1} duct {d_ + 1}: printed face '
+                    f'averages {got_faces}, outlet field gives '
+                    f'{[round(x, 2) for x in faces]}')
             if abs(got_pk - want_pk) > tol or abs(got_ht - want_ht) > tol:
                 ok = False
                 LAST_MISMATCH.append(
